@@ -1691,7 +1691,7 @@ def model(ex, st, c, args):
     m = re.fullmatch(r'core::slice::<impl \[.*\]>::(\w+)', c)
     if m:
         f = m.group(1)
-        r = args[0]
+        r = ex.ref_chain_end(args[0]) if isinstance(args[0], Ref) else args[0]
         v = D(r)
         if f in ('iter', 'iter_mut'):
             return IterV(r, 0, len(v.items))
@@ -1714,8 +1714,9 @@ def model(ex, st, c, args):
             if not v.items:
                 return none()
             if f == 'split_first':
-                return some(Adt('tuple', 0, [Ref(r.cell, list(r.path) + [('index', 0)]), Ref(st.new_cell(VecV(v.items[1:])), [])]))
-            return some(Adt('tuple', 0, [Ref(r.cell, list(r.path) + [('index', len(v.items) - 1)]), Ref(st.new_cell(VecV(v.items[:-1])), [])]))
+                # the rest is a view into the same vector (not a copy): references obtained through it alias the original elements
+                return some(Adt('tuple', 0, [Ref(r.cell, list(r.path) + [('index', 0)]), Ref(r.cell, list(r.path) + [('subslice', 1, 0, True)])]))
+            return some(Adt('tuple', 0, [Ref(r.cell, list(r.path) + [('index', len(v.items) - 1)]), Ref(r.cell, list(r.path) + [('subslice', 0, 1, True)])]))
         if f == 'get':
             i = args[1]
             n = len(v.items)
